@@ -571,12 +571,10 @@ def run(ctx):
             continue
         for ivs in G.start_orders(ms):
             n = len(ivs)
-            follow = rng.random() < 0.25
+            second = G.criteria(rng) if rng.random() < 0.25 else rng.choice(
+                [["seqid", ["overlap_end_threshold", 0]], ["seqid", "strand", "exact_coordinates_only"], list(M.DEFAULT)])
             case = {"kind": "merge", "source": "objects", "feats": G.rows(G.uniform_labels(rng, n), ivs), "criteria": list(M.DEFAULT),
-                    "omit_criteria": rng.random() < 0.5, "again": True, "second": G.criteria(rng) if follow else list(M.DEFAULT)}
-            if not follow:
-                case["second"] = rng.choice([["seqid", ["overlap_end_threshold", 0]], ["seqid", "strand", "exact_coordinates_only"],
-                                             list(M.DEFAULT)])
+                    "omit_criteria": rng.random() < 0.5, "again": True, "second": second}
             run_merge_case(ctx, case, "merge/exhaustive uniform default")
             n_exh += 1
             if n > 1:
